@@ -582,7 +582,10 @@ def _ctor_case(case):
                 sel = tuple(D._distributor_selector)
                 infos = [(bi.composable_block_ids, bi.group_source_rank) for bi in D._local_block_info_list]
                 seg = D._global_dist_buffer.numel() // gsize
-                per_rank[rank] = dict(n=n, sel=sel, infos=infos, nlocal=len(D._local_blocked_params), seg=seg,
+                es = D._global_dist_buffer.element_size()
+                misaligned = [i for i, b in enumerate(D._global_dist_blocked_buffers) if (b.storage_offset() * b.element_size()) % 64 != 0] + \
+                    (["segment"] if (seg * es) % 64 != 0 else [])
+                per_rank[rank] = dict(n=n, sel=sel, infos=infos, nlocal=len(D._local_blocked_params), seg=seg, misaligned=misaligned,
                                       lb=(D._local_dist_buffer.storage_offset(), D._local_dist_buffer.numel()),
                                       bufown=[b.storage_offset() * b.element_size() // max(seg, 1) for b in D._global_dist_blocked_buffers])
             errs = [v for v in per_rank.values() if isinstance(v, str)]
@@ -595,7 +598,9 @@ def _ctor_case(case):
                 for rank, v in per_rank.items():
                     gr = rank % gsize
                     want_sel = tuple(o == gr for o in own)
-                    if v["bufown"] != own:
+                    if v["misaligned"]:
+                        ok, txt = False, f"rank {rank}: gather-buffer slots are not 64-byte aligned in size (block views / segment starting off a 64-byte boundary: {v['misaligned'][:4]})"
+                    elif v["bufown"] != own:
                         ok, txt = False, f"rank {rank} computed a different assignment than rank 0"
                     elif v["sel"] != want_sel or v["nlocal"] != sum(want_sel) or len(v["infos"]) != sum(want_sel) or any(o != gr for _, o in v["infos"]):
                         ok, txt = False, f"rank {rank}: local selection / state block-info list is not exactly the blocks owned by group rank {gr}"
